@@ -301,6 +301,8 @@ class Tr:
             if isinstance(op, ast.Div):
                 self.join_num(ta, tb)
                 return f"({self.coerce(a, ta, RAT)} / {self.coerce(b, tb, RAT)})", RAT
+            if isinstance(op, ast.Pow) and isinstance(node.right, ast.Constant) and node.right.value == 2 and ta in (INT, RAT):
+                return f"({a} * {a})", ta
             if isinstance(op, ast.FloorDiv) and ta == INT and tb == INT:
                 return f"(Int.fdiv {a} {b})", INT
             if isinstance(op, ast.Mod) and ta == INT and tb == INT:
@@ -388,6 +390,8 @@ class Tr:
             b, tb = self.expr(node.orelse, env)
             t = self.join_branch(ta, tb)
             return f"(if {self.truthy(c, tc)} then {self.coerce(a, ta, t)} else {self.coerce(b, tb, t)})", t
+        if isinstance(node, ast.Call) and src in self.spec.get("call_params", {}):
+            return env[self.spec["call_params"][src]]
         if isinstance(node, ast.Call):
             return self.call(node, env)
         raise TranslationError(f"expression {src}")
@@ -1196,6 +1200,13 @@ SPECS = [
              "sides_x = [x[slice(0, side02_step + 1)], x[slice(side02_step, side02_step + 1 + 1)], x[slice(side02_step + 1, None)], np.append(x[-1], x[0])]",
              "sides_y = [y[slice(0, side02_step + 1)], y[slice(side02_step, side02_step + 1 + 1)], y[slice(side02_step + 1, None)], np.append(y[-1], y[0])]",
              "return (sides_x, sides_y)"]), owners=["C16"]),
+    # ---- C17 -----------------------------------------------------------------------------------
+    dict(name="sph_area_tail", file="pyresample/spherical.py", func="SphPolygon.area",
+         params=[("S", RAT), ("n", INT), ("np.pi", RAT), ("self.radius", RAT)], returns=RAT,
+         call_params={"sum(alpha)": "S", "len(self.lon)": "n"},
+         select=lambda fn: [fn.body[-1]],
+         guard=lambda fn: _same(fn.body[-2], "alpha[alpha < 0] += 2 * np.pi") and _same(fn.body[-3], "alpha = new_lons_a - new_lons_b"),
+         owners=["C17"]),
     # ---- C06 -----------------------------------------------------------------------------------
     dict(name="calc_abc", file="pyresample/bilinear/_base.py", func="_calc_abc",
          params=[("corner_points", tup(tup(RAT, RAT), tup(RAT, RAT), tup(RAT, RAT), tup(RAT, RAT))), ("out_y", RAT), ("out_x", RAT)],
